@@ -62,7 +62,7 @@ claim("C10", "DESIGN.md 5 C10",
       "on success of a non-system non-operator the group was not locked, not full (len(clients) <= MaxClients afterwards), inside its not-before/expires window, and with autokick an operator was found; "
       "on success the client is registered under its non-empty id, an existing registration under that id refuses the join; on every refusal the client object is left exactly as it was (Init not called: ghost count). "
       "autoLockKick never lifts or replaces an existing lock and locks only autolock groups; it is proved to be called with g.mu held at every call site (DelClient's call was outside the critical section: repaired). "
-      "DelClient evaluates the rule on the table WITHOUT the leaver, inside the critical section of the removal (call-site obligation after-removal, ghost counter at the Unlock), so the last operator's departure is seen. "
+      "autoLockKick leaves an autolock group locked unless it found an operator among the members (also when there are none). DelClient evaluates the rule on the table WITHOUT the leaver, inside the critical section of the removal (call-site obligation after-removal, ghost counter at the Unlock), so the last operator's departure is seen. "
       "AddClient/DelClient/Add frames are explicit (what they may modify) and checked write by write. getClientsUnlocked / GetClients return every member other than the excepted one (visited-set ghost of the map range).",
       "group.add/Add are verified too: names the validator refuses are rejected before any lookup, and on every successful lookup the autolock/autokick rule has been evaluated for the group, under its mutex, after the description was settled (ghost counter; a new autolock group starts locked). "
       "Assumed: readDescription, descriptionMatch/Unchanged (trusted), group.Client callbacks do not touch the group's guarded state, time.Time comparisons are pure; Description.GetPermission is verified under C08/C09. "
@@ -83,7 +83,7 @@ claim("C13", "DESIGN.md 5 C13",
       "(functions documented 'called locked' require it; public ones are proved to take and release the lock; double Lock and Unlock of an unheld mutex are obligations too). "
       "unbounded.Channel Put/Get: Put appends exactly v at the end and changes nothing else, Get returns the whole queue and leaves it empty (exactly once, in order, linearised).",
       "Two lock-ORDER rules are call-site obligations: group.kickall issues every Kick with the group's mutex released and never from under Group.Range (Shutdown deadlocked with a recorder or WHIP publisher in a group: repaired); "
-      "rtpconn.WhipClient.Close never calls into the group with the client's own mutex held (the group calls Permissions() with its mutex held: deadlock, repaired). group.GetDescription reads the description under the group's mutex (data race: repaired). "
+      "rtpconn.WhipClient.Close never calls into the group with the client's own mutex held (the group calls Permissions() with its mutex held: deadlock, repaired), and WhipClient.NewConnection creates its connection (newUpConn calls into the group) before taking that mutex. group.GetDescription reads the description under the group's mutex (data race: repaired). "
       "PARTIAL. Under contract: Name, Locked, SetLocked, Data, UpdateData, Description, ClientCount, mayExpire, Get, Delete, deleteUnlocked, Range (both), AddClient, DelClient, autoLockKick, GetClients, getClientsUnlocked, GetClient, getClientUnlocked, UserExists, chat history functions, Channel.Put/Get. "
       "Not yet under contract (accessors of guarded state outside the claim): add, Shutdown, WallOps, Status, GetPublic, Update, WhipClient, diskwriter.Client, stats. "
       "Not decided: lock-ORDER deadlock freedom (level ghosts not built: WhipClient.Close vs AddClient and kickall re-entering the group are NOT checked), lost wakeups, starvation, leaks. Callbacks passed to Range are assumed not to touch the lock.")
@@ -93,7 +93,8 @@ claim("C15", "DESIGN.md 5 C15",
       "(the prologue returns a ProtocolError otherwise), Privileged == ('op' in the sender's permissions); only broadcast chat is recorded. "
       "group history: AddToChatHistory keeps len <= 50, appends exactly the entry given, preserves order and drops exactly the oldest entry when full (overlapping copy modelled as memmove); "
       "discardObsoleteHistory/GetChatHistory return a suffix in order as a private copy; ClearChatHistory('', '') empties.",
-      "Assumed: broadcast delivers to exactly the *webClient members of the slice it is given (trusted contract, body not yet verified), slices.DeleteFunc's documented behaviour, time.Since. "
+      "broadcast is verified: it returns early only when the message cannot be marshalled, otherwise it goes through the whole slice it is given (a member whose writer is gone is skipped). "
+      "Assumed: slices.DeleteFunc's documented behaviour, time.Since, channel sends reach the member's writer. "
       "GetClients(except) is proved to be all members minus the sender (visited-set ghost of the map range); discardObsoleteHistory keeps an entry only after testing one entry and finding it young enough (the scan does not just run out of entries). "
       "Not decided: the replay loop on join (handleAction); that history entries are in time order; wall-clock meaning of the age limit.")
 
